@@ -374,7 +374,7 @@ func generate(repo, out string) error {
 	b.WriteString("]\n\n")
 
 	// 2. comparator tables and kernels of the five column packages
-	var tables, kernels []string
+	var tables, kernels, kasts []string
 	for _, p := range []string{"icolumn", "fcolumn", "bcolumn", "scolumn", "ecolumn"} {
 		files := parseDir(filepath.Join(repo, "internal", p))
 		mt := mapTables(files, fconsts)
@@ -407,6 +407,7 @@ func generate(repo, out string) error {
 			shape, e := kernelShape(fd)
 			kernels = append(kernels, fmt.Sprintf("  (%s, %s, %s, %s)", leanStr(p), leanStr(n), leanStr(shape), leanStr(e)))
 		}
+		kasts = append(kasts, kernelAsts(p, fns)...)
 	}
 	b.WriteString("/-- comparator tables: (package, table, [(comparator, kernel)]) -/\ndef tables : List (String × String × List (String × String)) := [\n" + strings.Join(tables, ",\n") + "]\n\n")
 	b.WriteString("/-- filter kernels: (package, function, shape, expression) with shape ∈ guarded | unguarded | noop | opaque -/\ndef kernels : List (String × String × String × String) := [\n" + strings.Join(kernels, ",\n") + "]\n\n")
@@ -594,6 +595,14 @@ func generate(repo, out string) error {
 	}
 	b.WriteString("]\n\nend QF.Gen\n")
 	if err := writeIfChanged(filepath.Join(out, "Facts.lean"), b.Bytes()); err != nil {
+		return err
+	}
+
+	// 4b. the kernels' semantics as terms of QF.KE (kast.go)
+	var kb bytes.Buffer
+	kb.WriteString("/- GENERATED on every run by /verif/go/cmd/extract from /repo's source (tie T1). Do not edit. -/\nimport QF.Core.KExpr\nnamespace QF.Gen\n\n")
+	kb.WriteString("/-- filter kernels translated to the expression language `QF.KE`, by role: (package, function, shape, term) -/\ndef kernelAst : List (String × String × String × KE) := [\n" + strings.Join(kasts, ",\n") + "]\n\nend QF.Gen\n")
+	if err := writeIfChanged(filepath.Join(out, "Kernels.lean"), kb.Bytes()); err != nil {
 		return err
 	}
 
